@@ -110,10 +110,12 @@ def c_cfg(cfg):
         stop = True
     # exclude_tag: the before_feature hook calls element.skip() on every element carrying that tag (model: c_excl)
     excl = "(Some %s)" % cnat(tag_id(cfg["exclude_tag"])) if cfg.get("exclude_tag") else "None"
-    return "(mkCfgData %s %s %s %s %s %s %s %s %s %s)" % (
+    # aborts: hook invocations that call context.abort() (model: c_aborts, event EAbort)
+    aborts = clist(["(%s, %s)" % (HOOK_COQ[h], cnat(key_id(h, str(k)))) for h, k in cfg.get("aborts", [])], "hookname * nat")
+    return "(mkCfgData %s %s %s %s %s %s %s %s %s %s %s)" % (
         cbool(cfg.get("dry_run")), cbool(stop), cbool(cfg.get("show_skipped")),
         c_expr(expr), clist([HOOK_COQ[h] for h in cfg.get("hooks", [])], "hookname"),
-        faults, hcs, cnat(WIP), cbool(cfg.get("continue_after_failed", False)), excl)
+        faults, hcs, cnat(WIP), cbool(cfg.get("continue_after_failed", False)), excl, aborts)
 
 
 def c_program(prog):
@@ -159,6 +161,8 @@ def c_event(e):
         return "(EStep %s %s %s %s)" % (KIND_COQ[e[1]], cnat(e[2]), cnat(name_id(e[3])), cbool(e[4]))
     if k == "undef":
         return "(EUndef %s)" % cnat(e[1])
+    if k == "hookabort":
+        return "(EAbort %s %s)" % (HOOK_COQ[e[1]], cnat(key_id(e[1], e[2])))
     if k == "cleanup":
         return "(ECleanup %s %s)" % (cnat(e[1]), cbool(e[2]))
     assert k == "fmt", e
@@ -350,6 +354,16 @@ def with_random_faults(rnd, prog, p_fault=0.5, p_cleanup=0.3):
     if rnd.random() < p_cleanup:
         h, k = rnd.choice([s for s in sites if not s[0].startswith("after_all")])
         prog["cfg"]["hook_cleanups"] = [[h, k, 500 + rnd.randint(0, 9), rnd.random() < 0.5]]
+    return prog
+
+
+def with_random_aborts(rnd, prog):
+    """one or two hook invocations call context.abort() (without raising)"""
+    prog = copy.deepcopy(prog)
+    sites = hook_sites(prog)
+    prog["cfg"]["aborts"] = [list(rnd.choice(sites))]
+    if rnd.random() < 0.2:
+        prog["cfg"]["aborts"].append(list(rnd.choice(sites)))
     return prog
 
 
